@@ -85,6 +85,20 @@ class Group:
         self.lazy = lazy
         self.stack = []
         self.calls = {j: [] for j in range(1, k + 1)}
+        self.bystander = None
+        if share_params and rng.random() < 0.6:
+            # a bystander of higher dimension built FIRST with the same SolverParameters object (a user's 6-D problem with the
+            # default density): creating it must not change what the parameters mean for the solvers created afterwards
+            from iOpt.solver import Solver
+            from iOpt.solver_parametrs import SolverParameters
+            sp = self.specs[0]
+            self.shared_params = SolverParameters(eps=sp["eps"], r=sp["r"], itersLimit=sp["limit"], evolventDensity=sp["m"], refineSolution=False)
+            nb = rng.choice([6, 6, 7])
+            self.bystander = Solver(FnProblem(nb, [-1.0] * nb, [1.0] * nb, lambda y: sum(t * t for t in y), "bystander"), parameters=self.shared_params)
+            import contextlib
+            import io
+            with contextlib.redirect_stdout(io.StringIO()):
+                self.bystander.DoGlobalIteration(2)
         if not lazy:
             for j in range(1, k + 1):
                 self.get(j)
